@@ -942,7 +942,8 @@ class RTCPeerConnection(AsyncIOEventEmitter):
                 )
 
                 # configure direction
-                direction = reverse_direction(media.direction)
+                # a section without a direction attribute is "sendrecv" (RFC 3264)
+                direction = reverse_direction(media.direction or "sendrecv")
                 if description.type in ["answer", "pranswer"]:
                     transceiver._setCurrentDirection(direction)
                 else:
